@@ -6,7 +6,8 @@ Checked against the independent codec only.  Mode T: 1..8 client tasks on
 distinct nodes share the master Network; the seeded scheduler decides every
 interleaving; optional line-level pre-emptions inside canopen code; a TX driver
 model that is not thread-safe makes the purpose of send_lock observable.
-Mode I: value sweeps on one node.
+Mode I: value sweeps on one node.  Mode V: as Mode T, but over python-can's own
+virtual bus and Notifier threads (real code, seams owned by the simulator).
 """
 import math
 import os
@@ -24,6 +25,7 @@ from simcan.util import call, site
 ID = "C03"
 LEVEL = "exploration"
 BUDGET = {"quick": 45, "thorough": 600}
+MIN_SEEDED = 800        # threaded runs are slow (about 100 per second and core)
 RULE = ("one run = 1..8 client tasks (Mode T) or one caller (Mode I), each assigning typed values through a remote node's SDO "
         "accessor and reading them back from both sides; case key = (mode, data type, access path, value class, delivery mode, "
         "#clients, pre-emptions used); all keys involve real transfers; distinct = distinct keys; distinct interleavings are "
@@ -34,17 +36,18 @@ EXHAUSTIVE_CORE = ("Mode I: every boundary value (range ends, -1, 0, 1, powers o
 ASSUMPTIONS = [
     "models/codec.py is the CiA 301 encoding (little-endian two's complement, IEEE 754, ASCII, UTF-16-LE)",
     "UNICODE_STRING values are BMP characters without surrogates and without trailing NUL; VISIBLE_STRING values are printable ASCII (the decoder strips trailing NULs by design)",
-    "python-can's threaded virtual bus named in the quantifier is replaced by SimBus + seeded scheduler: its interleavings are not under the simulator's control",
+    "python-can's threaded virtual bus named in the quantifier runs as real code in Mode V (can.interfaces.virtual.VirtualBus, can.Notifier, Network.connect/disconnect) with its queue, clock, lock and Thread seams owned by the simulator, so that its interleavings are decided by the seeded scheduler; Mode T uses SimBus instead (wire latency, non-thread-safe TX driver model)",
     "no frame loss; delivery later than the client's time-out only in marked 'slow episodes' of Mode I (calls made inside an episode are not judged, every later round trip is); scheduling granularity = simulator primitives plus up to 3 line-level pre-emptions inside canopen/ per run",
 ]
 COMPONENTS = {
     "real": ["canopen.Network (send_lock, subscribers, notify)", "canopen.RemoteNode / LocalNode", "canopen.sdo.client", "canopen.sdo.server",
-             "canopen.sdo.base / canopen.variable accessors", "canopen.objectdictionary codec (encode_raw/decode_raw)"],
+             "canopen.sdo.base / canopen.variable accessors", "canopen.objectdictionary codec (encode_raw/decode_raw)",
+             "Mode V: python-can VirtualBus and Notifier (reader threads as scheduler tasks), canopen.Network.connect/disconnect, MessageListener"],
     "stub": ["CAN backend (SimBus; optional non-thread-safe TX slot model)", "can.Notifier (one receive task per Network under the seeded scheduler)",
              "time/queue/threading inside canopen modules", "caller threads = baton-passing real threads"],
 }
 PROBES = ["mode-T", "mode-I", "inline-delivery", "deferred-delivery", "unrelated-traffic", "preempted", "clients>=4", "by-name", "record-member",
-          "late-answers-queued"]
+          "late-answers-queued", "mode-V"]
 
 INT_TYPES = sorted(codec.INTS)
 STR_TYPES = (codec.VISIBLE_STRING, codec.UNICODE_STRING, codec.OCTET_STRING, codec.DOMAIN)
@@ -183,15 +186,18 @@ def one_roundtrip(ctx, remote, local, t, path, value, who, k=1):
     lv = accessor(local.sdo, t, path, k)[0].raw
     if not same(t, value, lv):
         ctx.violation("C03/local-read/%s" % ("string" if t in STR_TYPES else "number"), "%s: local accessor reads %r" % (what, lv if not isinstance(lv, (bytes, str)) or len(lv) < 40 else lv[:40]))
+    ctx.log("roundtrip", who, remote.id, t, path, expected[:12])
 
 
 def scenario(ctx):
-    mode = ctx.choice(3, "mode")        # 0 Mode T, 1 Mode I boundary sweep, 2 Mode I exhaustive chunk
+    mode = ctx.choice(4, "mode")        # 0 Mode T, 1 Mode I boundary sweep, 2 Mode I exhaustive chunk, 3 Mode T over python-can's virtual bus
     a = ctx.choice(len(ALL), "type")
     b = ctx.choice(len(PATHS), "path")
     c = ctx.choice(64, "chunk")
     if mode == 0:
         return _mode_t(ctx)
+    if mode == 3:
+        return _mode_v(ctx)
     ctx.probe("mode-I")
     ch = world.make_channel(ctx)
     ch.inline_mode = ctx.choice(2, "inline") == 1
@@ -288,6 +294,135 @@ def _slow_episode(ctx, ch, remote, nid):
         ctx.fault("answers-later-than-timeout", timed_out)
         ctx.probe("late-answers-queued")
     ctx.cover(("slow-episode", min(timed_out, 3)))
+
+
+def _mode_v(ctx):
+    """The configuration the quantifier names last: python-can's own *threaded
+    virtual bus*.  can.interfaces.virtual.VirtualBus and can.Notifier run as
+    real code (Network.connect / disconnect included); their queue, clock, lock
+    and Thread seams belong to the simulator, so the Notifier's reader threads
+    are tasks of the seeded scheduler like the client threads."""
+    import can
+    from can.interfaces import virtual
+    ctx.probe("mode-V")
+    nclients = 1 + ctx.choice(4, "clients")
+    policy = (0, 4, 16)[ctx.choice(3, "policy")]
+    npre = ctx.choice(4, "npreempt") if (ctx.params.get("tier") == "thorough" or ctx.choice(4, "preq") == 0) else 0
+    pre = [1 + ctx.choice(6000, "prepos") for _ in range(npre)]
+    ctx.enable_threads(policy, pre, os.path.join(patch.REPO, "canopen"))
+    if ctx.choice(3, "stalls") == 1:
+        ctx.stall = lambda: (0, 0, 0, 200 * US, 2 * MS)[ctx.choice(5, "stall")]
+        ctx.fault("slow-task")
+    chid = "simcan-c03"
+    virtual.channels.pop(chid, None)
+    nets = []
+
+    buses = []
+
+    def cleanup():
+        virtual.channels.pop(chid, None)
+        for b in buses:
+            b._is_shutdown = True       # (keeps BusABC.__del__ quiet for buses of an aborted run)
+            b._open = False
+        for net in nets:
+            n = net.notifier
+            if n is not None:
+                n._running = False
+                try:
+                    for b in (n.bus if isinstance(n.bus, tuple) else (n.bus,)):
+                        can.Notifier._registry.unregister(b, n)
+                except Exception:
+                    pass
+    ctx.cleanup.append(cleanup)
+    buses += [virtual.VirtualBus(channel=chid), virtual.VirtualBus(channel=chid)]
+    mnet = canopen.Network(buses[0])
+    snet = canopen.Network(buses[1])
+    nets += [mnet, snet]
+    shared = build_od() if ctx.choice(2, "sharedod") else None
+    base = 1 + ctx.choice(100, "base")
+    ids = [base]
+    for k in range(1, nclients):
+        ids.append(ids[-1] + 1 + ctx.choice(3, "gap"))
+    pairs = []
+    for nid in ids:
+        od = shared or build_od()
+        r = canopen.RemoteNode(nid, od)
+        mnet.add_node(r)
+        l = canopen.LocalNode(nid, od)
+        snet.add_node(l)
+        pairs.append((r, l))
+    mnet.connect()          # can.Notifier: one reader thread per network
+    snet.connect()
+    nnoise = ctx.choice(3, "noise") * 6
+    free = [n for n in range(1, 128) if n not in ids]
+    noise_plan = []
+    for k in range(nnoise):
+        kind = ctx.choice(4, "nkind")
+        other = free[ctx.choice(len(free), "nid")]
+        own = ids[ctx.choice(len(ids), "nn")]
+        can_id, data = ((0x180 + other, bytes([k & 0xFF] * (1 + ctx.choice(8, "nl")))), (0x80 + own, bytes([0x10, 0x81, 1, 0, 0, 0, 0, k & 0xFF])),
+                        (0x700 + own, bytes([5])), (0x580 + other, bytes([0x4F, 0, 0x20, 0, k & 0xFF, 0, 0, 0])))[kind]
+        noise_plan.append((ctx.choice(40, "nt") * 0.0005, can_id, data))
+    if nnoise:
+        ctx.probe("unrelated-traffic")
+        nbus = virtual.VirtualBus(channel=chid)
+        buses.append(nbus)
+
+        def noise_body():
+            for dt, can_id, data in noise_plan:
+                ctx.sleep(dt)
+                nbus.send(can.Message(arbitration_id=can_id, data=data, is_extended_id=False))
+        ctx.spawn("noise", noise_body, daemon_task=True)
+    nops = 1 + ctx.choice(4, "nops")
+    plans = []
+    for ci, (r, l) in enumerate(pairs):
+        ops = []
+        for _ in range(nops):
+            path = PATHS[ctx.choice(len(PATHS), "p")]
+            t = eff_type(ALL[ctx.choice(len(ALL), "t")], path)
+            v, cls = gen_value(ctx, t, r.id)
+            ops.append((t, path, v, cls, 1 + ctx.choice(4, "k")))
+        plans.append(ops)
+
+    def client(ci):
+        r, l = pairs[ci]
+
+        def body():
+            for (t, path, v, cls, k) in plans[ci]:
+                one_roundtrip(ctx, r, l, t, path, v, "client%d" % ci, k)
+                ctx.cover(("V", t, path, cls if not cls.startswith("len") else "len", min(nclients, 4), npre))
+        return body
+    ctasks = [ctx.spawn("client%d" % ci, client(ci)) for ci in range(nclients)]
+    closed = {}
+
+    def closer():
+        ctx.wait_until(lambda: all(t.state == "done" for t in ctasks), None, "closer")
+        for name, net in (("master", mnet), ("slave", snet)):
+            _, exc = call(net.disconnect)
+            closed[name] = exc
+    ctx.spawn("closer", closer)
+    try:
+        ctx.run_tasks()
+    finally:
+        if ctx.preemptions:
+            ctx.probe("preempted", ctx.preemptions)
+    for tsk in ctx.tasks:
+        if tsk.exc is not None and not isinstance(tsk.exc, Violation) and not tsk.daemon_task:
+            raise tsk.exc
+    for name, exc in sorted(closed.items()):
+        if exc is not None:
+            ctx.violation("C03/disconnect-raised/%s@%s" % (type(exc).__name__, site(exc)),
+                          "%s network: disconnect() after the transfers raised %r (an exception in the receive thread is re-raised there)" % (name, exc))
+    for ci, (r, l) in enumerate(pairs):
+        last = {}
+        for (t, path, v, cls, k) in plans[ci]:
+            _, index, sub = accessor(r.sdo, t, path, k)
+            last[(index, sub)] = codec.encode(t, v)
+        have = {(i, s2): bytes(d) for i, subs in l.data_store.items() for s2, d in subs.items()}
+        if have != last:
+            bad = [k for k in set(have) | set(last) if have.get(k) != last.get(k)][0]
+            ctx.violation("C03/cross-talk", "node %d: object %04X:%02X holds %r, its own client wrote %r last (python-can virtual bus)" % (
+                r.id, bad[0], bad[1], have.get(bad), last.get(bad)))
 
 
 def _mode_t(ctx):
